@@ -259,6 +259,9 @@ type engSpec struct {
 	Stalls      bool
 	CancelAt    time.Duration // >0: caller cancels the run at this simulated instant
 	GunErrAt    int           // k-th gun creation fails (-1 never); k=0 is the warm-up gun
+	// ExtraPool: the engine runs a second, minimal pool (one instance, one shot, own components and log) listed before
+	// the pool under observation: whatever the engine shares between its pools (counters, contexts) shows
+	ExtraPool bool
 	// PanicOn: the PanicShot-th shot of instance PanicInst panics (the engine recovers it into a failed run)
 	PanicOn              bool
 	PanicInst, PanicShot int
@@ -331,7 +334,27 @@ func runEngine(r *R, sp engSpec, horizon time.Duration) *engResult {
 				return &stubs.RecSchedule{Schedule: s, Log: log, Name: "rps"}, nil
 			},
 		}
-		eng := engine.New(zap.NewNop(), res.Metrics, engine.Config{Pools: []engine.InstancePoolConfig{pool}})
+		poolList := []engine.InstancePoolConfig{pool}
+		if sp.ExtraPool {
+			xlog := stubs.NewLog()
+			xstart, err := decodeSchedule(map[string]interface{}{"type": "once", "times": 1})
+			if err != nil {
+				panic(err)
+			}
+			xfac := &stubs.GunFactory{Log: xlog, Script: stubs.DefaultGunScript()}
+			pool.ID = "observed"
+			poolList = []engine.InstancePoolConfig{{
+				ID:              "extra",
+				Provider:        stubs.NewScriptProvider(xlog, 1),
+				Aggregator:      aggregator.NewDiscard(),
+				NewGun:          xfac.New,
+				StartupSchedule: xstart,
+				NewRPSSchedule: func() (core.Schedule, error) {
+					return decodeSchedule(map[string]interface{}{"type": "once", "times": 1})
+				},
+			}, pool}
+		}
+		eng := engine.New(zap.NewNop(), res.Metrics, engine.Config{Pools: poolList})
 		ctx, cancel := context.WithCancel(context.Background())
 		defer cancel()
 		if sp.CancelAt > 0 {
